@@ -120,14 +120,6 @@ def setup_worker():
     from vlib import universe as U
     U.TICK.reset()
     U.TICK.hook = lambda count, kind: S.point(kind)
-    orig_repr = U.FM.__repr__
-
-    def fm_repr(self):
-        S.point('meta_repr')
-        return orig_repr(self)
-
-    U.FM.__repr__ = fm_repr
-
     def showwarning(message, category, filename, lineno, file=None, line=None):
         S.point('showwarning')
 
